@@ -4,10 +4,12 @@
 //!
 //! CL <dict> <n> events:
 //!   R <hop>      start send_message(request with that hop-by-hop id); it runs until it blocks in the write
+//!   RX <hop>     send_message with a request that cannot be encoded (a Time after 2036): returns Err, nothing may reach the wire
 //!   G <k>        let k more request octets through the write gate
 //!   W            open the gate, let the pending send complete
 //!   P <hop>      the peer emits a complete answer frame with that hop-by-hop id (end-to-end id = emission index)
 //!   PS <hop> <cut>  the same, delivered in two pieces cut after <cut> octets (segmentation)
+//!   PL <hop> <n>    a complete answer carrying n extra octets (answers of different lengths on one connection)
 //!   PT <hop> <cut>  only the first <cut> octets of an answer (to be followed by B eof / B reset)
 //!   PG <hop> <cut> <ms>  the same as PS with <ms> milliseconds of (virtual) time between the two pieces
 //!   B <kind>     eof | reset | garbage | unknownavp : whatever makes the reader's Codec::decode fail
@@ -166,6 +168,8 @@ async fn settle() {
 
 enum Ev {
     R(u32),
+    RX(u32),
+    PL(u32, usize),
     G(usize),
     W,
     WE,
@@ -214,6 +218,11 @@ pub fn run(st: &State, t: &mut Toks) -> PResult<String> {
     for _ in 0..n {
         evs.push(match t.next()? {
             "R" => Ev::R(t.u32()?),
+            "RX" => Ev::RX(t.u32()?),
+            "PL" => {
+                let h = t.u32()?;
+                Ev::PL(h, t.u64()? as usize)
+            }
             "G" => Ev::G(t.u64()? as usize),
             "W" => Ev::W,
             "P" => Ev::P(t.u32()?, None, 0),
@@ -265,6 +274,10 @@ pub fn run(st: &State, t: &mut Toks) -> PResult<String> {
                 tokio::spawn(async move {
                     DiameterClient::handle(&mut handler, dict_r).await;
                     rd.store(true, Ordering::SeqCst);
+                    // the caller keeps its ClientHandler after handle() has returned (as one that drives handle() from its
+                    // own task does): what handle() owes the waiters must not depend on the handler being dropped
+                    std::future::pending::<()>().await;
+                    drop(handler);
                 });
                 conns.push((duplex, reader_done));
             }
@@ -272,6 +285,8 @@ pub fn run(st: &State, t: &mut Toks) -> PResult<String> {
             let client = Arc::new(tokio::sync::Mutex::new(client));
             let mut results: Vec<Option<SendResult>> = Vec::new();
             let mut dropped: Vec<usize> = Vec::new();
+            let mut unencodable: Vec<usize> = Vec::new();
+            let mut write_faulted = false;
             let mut resolved: Vec<Option<String>> = Vec::new();
             let mut inflight: Option<(usize, tokio::task::JoinHandle<SendResult>)> = None;
             let mut emitted: Vec<u32> = vec![0];      // answers emitted so far, per connection (the end-to-end id of an answer)
@@ -295,6 +310,31 @@ pub fn run(st: &State, t: &mut Toks) -> PResult<String> {
                         results.push(None);
                         inflight = Some((results.len() - 1, jh));
                     }
+                    Ev::RX(h) => {
+                        if let Some((idx, jh)) = inflight.take() {
+                            conns[conns.len() - 1].0.allow(None);
+                            results[idx] = Some(jh.await.unwrap_or(Err(())));
+                        }
+                        conns[conns.len() - 1].0.allow(None);
+                        use chrono::TimeZone;
+                        let mut req = DiameterMessage::new(CommandCode::CreditControl, ApplicationId::CreditControl, 0x80, h, 7, Arc::clone(&dict));
+                        req.add_avp(264, None, M, Identity::new("host.example.com").into());
+                        req.add_avp(55, None, M, Time::new(chrono::Utc.timestamp_opt(2_208_988_800, 0).single().expect("time")).into());
+                        let mut c = client.lock().await;
+                        let r = c.send_message(req).await.map_err(|_| ());
+                        drop(c);
+                        results.push(Some(r));
+                        unencodable.push(results.len() - 1);
+                    }
+                    Ev::PL(h, n) => {
+                        let mut ans = DiameterMessage::new(CommandCode::CreditControl, ApplicationId::CreditControl, 0, h, emitted[sel], Arc::clone(&dict));
+                        ans.add_avp(268, None, M, Unsigned32::new(2001).into());
+                        ans.add_avp(25, None, 0, OctetString::new(vec![0x5a; n]).into());
+                        emitted[sel] += 1;
+                        let mut b = Vec::new();
+                        ans.encode_to(&mut b).expect("encode answer");
+                        conns[sel].0.push(&b);
+                    }
                     Ev::G(k) => conns[conns.len() - 1].0.allow(Some(k)),
                     Ev::W => {
                         if let Some((idx, jh)) = inflight.take() {
@@ -303,6 +343,7 @@ pub fn run(st: &State, t: &mut Toks) -> PResult<String> {
                         }
                     }
                     Ev::WE => {
+                        write_faulted = true;
                         conns[conns.len() - 1].0.fail_write();
                         settle().await;
                         if let Some((idx, jh)) = inflight.take() {
@@ -348,6 +389,8 @@ pub fn run(st: &State, t: &mut Toks) -> PResult<String> {
                             tokio::spawn(async move {
                                 DiameterClient::handle(&mut handler, dict_r).await;
                                 rd.store(true, Ordering::SeqCst);
+                                std::future::pending::<()>().await;
+                                drop(handler);
                             });
                             conns.push((duplex, reader_done));
                             emitted.push(0);
@@ -464,6 +507,32 @@ pub fn run(st: &State, t: &mut Toks) -> PResult<String> {
                 }
             }
             out.push_str(if conns[conns.len() - 1].1.load(Ordering::SeqCst) { " READER stopped" } else { " READER alive" });
+            // what the peer(s) received must be whole requests only: one 44-octet frame per send that was not refused
+            // (not checked when a write was made to fail half-way: a partial frame is then legitimately on the wire)
+            if !write_faulted {
+                let mut good = true;
+                let mut frames = 0usize;
+                for (d, _) in &conns {
+                    let s = d.0.lock().unwrap();
+                    let b = &s.from_client;
+                    let mut off = 0usize;
+                    while off < b.len() {
+                        if off + 4 > b.len() {
+                            good = false;
+                            break;
+                        }
+                        let ln = u32::from_be_bytes([0, b[off + 1], b[off + 2], b[off + 3]]) as usize;
+                        if b[off] != 1 || ln != 44 || off + ln > b.len() {
+                            good = false;
+                            break;
+                        }
+                        frames += 1;
+                        off += ln;
+                    }
+                }
+                let _ = unencodable.len();
+                let _ = write!(out, " WIRE {}", if good { format!("ok:{}", frames) } else { "bad".to_string() });
+            }
             if conns.len() > 1 {
                 out.push_str(" ALL");
                 for (_, rd) in &conns {
